@@ -309,3 +309,16 @@ func FreeAddr() string {
 }
 
 var _ = tls.VersionTLS12
+
+// NewUnstartedServer is httptest.NewUnstartedServer with a listener that is retried while the loopback port range is crowded
+// (httptest panics at once).
+func NewUnstartedServer(h http.Handler) *httptest.Server {
+	return &httptest.Server{Listener: ListenRetry(), Config: &http.Server{Handler: h}}
+}
+
+// NewServer is httptest.NewServer over ListenRetry.
+func NewServer(h http.Handler) *httptest.Server {
+	s := NewUnstartedServer(h)
+	s.Start()
+	return s
+}
